@@ -17,6 +17,8 @@ type Engine struct {
 	L       *Loaded
 	CS      *ContractSet
 	effects map[*ssa.Function]map[string]bool
+	effectsDone bool
+	stable  map[string]*StableField
 	files   []*ast.File
 	globals map[*ssa.Global]*globalInfo
 }
@@ -126,8 +128,12 @@ func (E *Engine) encodeOnce(key string, preset map[string]string, presetTypes []
 		pk = append(pk, k)
 	}
 	sort.Strings(pk)
+	enc.refAxioms = fc.FreshRefs
 	for _, k := range pk {
 		heap[k] = enc.R.heapConst(k, preset[k])
+		if enc.refAxioms && preset[k] == "(Array Int Int)" && strings.HasPrefix(k, "H_") {
+			enc.refAxiom(k)
+		}
 	}
 	f.curHeap = heap
 	f.curPC = pc
@@ -191,6 +197,7 @@ func (E *Engine) encodeOnce(key string, preset map[string]string, presetTypes []
 	f.frameObligation()
 	f.postconditions()
 	f.throwObligations()
+	f.unwindObligations()
 	return enc, nil
 }
 
@@ -636,6 +643,9 @@ func (f *frame) frameObligation() {
 	}
 	var extra []string
 	for k := range w {
+		if k == "*dyn" {
+			k = "*"
+		}
 		if !allowed[k] {
 			extra = append(extra, k)
 		}
@@ -723,4 +733,73 @@ func (E *Engine) typeInfoFor(fn *ssa.Function) *types.Info {
 		}
 	}
 	return nil
+}
+
+// unwindObligations: on every exceptional exit (a panic raised here or passing through a
+// call), after the deferred calls registered on that path have run, the unwind_ensures
+// clauses hold.  One obligation per clause and exit point.
+// preservedCond: every object that existed at entry has the same value in the preserved
+// fields (objects allocated by this activation have negative references and are exempt).
+func (f *frame) preservedCond(heap Heap) string {
+	e := f.enc
+	var cs []string
+	for _, ks := range e.onlyAtKeys(f.contract.OnlyAt, f.selfBind()) {
+		now := e.heapGet(heap, ks[0], ks[1])
+		then := e.heapGet(f.entryHeap, ks[0], ks[1])
+		if now == then {
+			continue
+		}
+		cs = append(cs, fmt.Sprintf("(forall ((q!r Int)) (=> (and (>= q!r 0) (not (= q!r %s))) (= (select %s q!r) (select %s q!r))))", ks[2], now, then))
+	}
+	for _, ks := range e.fieldKeys(f.contract.Preserves, f.fn.Pkg.Pkg) {
+		now := e.heapGet(heap, ks[0], ks[1])
+		then := e.heapGet(f.entryHeap, ks[0], ks[1])
+		if now == then {
+			continue
+		}
+		cs = append(cs, fmt.Sprintf("(forall ((q!r Int)) (=> (>= q!r 0) (= (select %s q!r) (select %s q!r))))", now, then))
+	}
+	return and(cs...)
+}
+
+func (f *frame) unwindObligations() {
+	fc := f.contract
+	if len(fc.Preserves) > 0 || len(fc.OnlyAt) > 0 {
+		// on normal return
+		var parts []oblPart
+		var conj []string
+		for _, r := range f.rets {
+			c := f.preservedCond(r.heap)
+			conj = append(conj, implies(r.pc, c))
+			parts = append(parts, oblPart{PC: r.pc, Cond: c})
+		}
+		save := f.curPC
+		f.curPC = f.enc.prePC
+		f.oblige("preserve.return", "", and(conj...), "preserves "+strings.Join(fc.Preserves, ", ")+"; writes_only_at "+strings.Join(fc.OnlyAt, ", "), token.NoPos)
+		if len(parts) > 1 {
+			f.enc.obls[len(f.enc.obls)-1].Parts = parts
+		}
+		f.curPC = save
+	}
+	if len(fc.Unwind) == 0 && len(fc.Preserves) == 0 && len(fc.OnlyAt) == 0 {
+		return
+	}
+	for _, ex := range f.excs {
+		saveHeap, savePC := f.curHeap, f.curPC
+		f.curHeap = ex.heap.clone()
+		f.curPC = ex.pc
+		f.inDeferred = true
+		f.runDefersHere()
+		f.inDeferred = false
+		for k, uw := range fc.Unwind {
+			c := f.evalContractBool(uw, f.curHeap, nil, nil)
+			f.oblige(fmt.Sprintf("unwind.%d", k+1), ex.label, c, uw.Text, ex.pos)
+			o := f.enc.obls[len(f.enc.obls)-1]
+			o.Props = uw.Props
+		}
+		if len(fc.Preserves) > 0 || len(fc.OnlyAt) > 0 {
+			f.oblige("preserve.unwind", ex.label, f.preservedCond(f.curHeap), "preserves "+strings.Join(fc.Preserves, ", "), ex.pos)
+		}
+		f.curHeap, f.curPC = saveHeap, savePC
+	}
 }
